@@ -106,9 +106,10 @@ func unlockCommand(cmd *cobra.Command, args []string) {
 		}
 	} else if unlockCmdFlags.Id != "" {
 		// This call can early-out
-		unlockAbortIfFileModifiedById(unlockCmdFlags.Id, lockClient)
-
-		err := lockClient.UnlockFileById(unlockCmdFlags.Id, unlockCmdFlags.Force)
+		err := unlockAbortIfFileModifiedById(unlockCmdFlags.Id, lockClient)
+		if err == nil {
+			err = lockClient.UnlockFileById(unlockCmdFlags.Id, unlockCmdFlags.Force)
+		}
 		if err != nil {
 			locks = handleUnlockError(locks, unlockCmdFlags.Id, "", errors.New(tr.Tr.Get("Unable to unlock %v: %v", unlockCmdFlags.Id, errors.Cause(err))))
 			success = false
